@@ -330,6 +330,7 @@ type checker struct {
 	aborted       bool
 	procs         map[int]*exec.Cmd
 	hangNotes     []string
+	oomDeaths     int
 	knownSeen     map[string]bool
 	regressionRan int
 }
@@ -426,6 +427,9 @@ func (ck *checker) runWorker(spec workerSpec, kvOut map[string]string) {
 		}
 		// attribute to the run whose BEGIN has no END; confirm solo
 		cs := core.Case{Prop: ck.id, Campaign: last.camp, Seed: ck.seed, Run: last.idx}
+		if pt, err := os.ReadFile(filepath.Join(buildDir, fmt.Sprintf("p%d-w%d.stderr", spec.phase, spec.idx))); err == nil && bytes.Contains(pt, []byte("out of memory")) {
+			reason += " (out of memory)"
+		}
 		ck.confirmDeath(cs, reason, spec)
 		skip[fmt.Sprintf("%s %d", last.camp, last.idx)] = true
 		spec.from = last.idx + 1 // resume after the fatal run (worker skips to its next own index)
@@ -792,6 +796,16 @@ func (ck *checker) confirmDeath(cs core.Case, reason string, spec workerSpec) {
 			ck.addViolation(&core.ReplayFile{Case: full, Violation: out.Viol, Digest: out.Digest, Desc: out.Desc})
 			return
 		}
+		if strings.Contains(reason, "out of memory") {
+			// the long-lived worker ran into its address-space limit in this run and the run fits
+			// when alone: an allocation of hundreds of megabytes, which is C14's subject (C14's own
+			// runs measure it); not a crash of the library and not a failure of the machinery
+			ck.mu.Lock()
+			ck.oomDeaths++
+			ck.hangNotes = append(ck.hangNotes, fmt.Sprintf("run %s/%d exhausted the pool worker's 2 GiB address space and passes alone (allocation size is C14's subject)", cs.Campaign, cs.Run))
+			ck.mu.Unlock()
+			return
+		}
 		say("MACHINERY-ERROR worker %d died (%s) in run %s/%d but the run passes alone", spec.idx, reason, cs.Campaign, cs.Run)
 		machineryFailed = true
 	case ended == "timeout":
@@ -1116,6 +1130,7 @@ func (ck *checker) writeEvidence(wall time.Duration, nViol int, knownSeen []stri
 		},
 		"known_findings_seen": knownSeen,
 		"watchdog_kills":      ck.watchdogKills,
+		"oom_worker_deaths":   ck.oomDeaths,
 		"regression_replays":  ck.regressionRan,
 		"workers":             ck.workers,
 	}
